@@ -374,7 +374,7 @@ func runC14(c *Ctx) {
 		c.Unresolved("C14.T1", "patch.PatchesFromDocument")
 	} else {
 		c.Analysed(pfd)
-		tbl := c.caseTable(pfd, nil, func(p string) bool { return strings.HasSuffix(p, "[ι]") })
+		tbl, _, _, _ := c.caseTableTree(pfd, func(p string) bool { return strings.HasSuffix(p, "[ι]") })
 		got := map[string]string{}
 		for k, blk := range tbl {
 			for _, cl := range callsIn(blk) {
@@ -1170,16 +1170,24 @@ func (c *Ctx) patchLiteral(v ssa.Value, env Env, depth int) (map[string]string, 
 			}
 		}
 		return out, n, true
+	case *ssa.Extract:
+		// the patch of a (Patch, error) helper whose results are handed on
+		if cl, ok := x.Tuple.(*ssa.Call); ok && x.Index == 0 {
+			return c.patchLiteral(cl, env, depth)
+		}
 	case *ssa.Call:
 		g := x.Call.StaticCallee()
-		if g == nil || !inModule(g) || g.Blocks == nil || depth > 2 || g.Signature.Results().Len() != 1 {
+		if g == nil || !inModule(g) || g.Blocks == nil || depth > 2 || g.Signature.Results().Len() > 2 {
 			return nil, 0, false
 		}
 		genv := c.calleeEnv(&x.Call, g, env)
 		var out map[string]string
 		cnt := 0
 		for _, r := range returnsOf(g) {
-			lit, n, ok := c.patchLiteral(r.Results[0], genv, depth+1)
+			if !maySucceed(r) {
+				continue
+			}
+			lit, n, ok := c.patchLiteral(returnedValue(r, 0), genv, depth+1)
 			if !ok || (out != nil && fmt.Sprint(lit) != fmt.Sprint(out)) {
 				return nil, 0, false
 			}
